@@ -17,6 +17,7 @@ Inductive expr :=
 | EAnd (a b : expr) | EOr (a b : expr) | ENot (a : expr) | ENeg (a : expr)
 | EList (l : list expr) | ETuple (l : list expr) | EDict (d : list (string * expr))
 | EIndex (a i : expr)
+| ESlice (a lo hi : expr)                     (* a[lo:hi]; a missing bound is ENone (a[None:None] = a[:]) *)
 | EAttr (a : expr) (name : string)
 | ECall (f : string) (args : list expr)
 | EMeth (a : expr) (m : string) (args : list expr)
@@ -124,6 +125,32 @@ Definition index_eval (a i : value) : res value :=
       | VStr k => match lookup k d with Some v => Ok v | None => Exc KeyError end
       | _ => Exc KeyError
       end
+  | _ => Exc TypeError
+  end.
+
+(* a[lo:hi] with Python's clamping; a bound is None or an int (bools are ints) *)
+Definition slice_bound (v : value) (n dflt : Z) : res Z :=
+  match v with
+  | VNone => Ok dflt
+  | _ => match as_int v with
+         | Some z => let z' := if (z <? 0)%Z then (z + n)%Z else z in
+                     Ok (if (z' <? 0)%Z then 0%Z else if (n <? z')%Z then n else z')
+         | None => Exc TypeError
+         end
+  end.
+Definition slice_eval (a lo hi : value) : res value :=
+  let go (n : Z) (k : nat -> nat -> value) : res value :=
+    match slice_bound lo n 0%Z with
+    | Exc e => Exc e
+    | Ok l => match slice_bound hi n n with
+              | Exc e => Exc e
+              | Ok h => Ok (k (Z.to_nat l) (Z.to_nat (h - l)))
+              end
+    end in
+  match a with
+  | VList l => go (Z.of_nat (List.length l)) (fun i n => VList (firstn n (skipn i l)))
+  | VTuple l => go (Z.of_nat (List.length l)) (fun i n => VTuple (firstn n (skipn i l)))
+  | VStr s => go (Z.of_nat (String.length s)) (fun i n => VStr (take n (drop i s)))
   | _ => Exc TypeError
   end.
 
@@ -292,6 +319,13 @@ Fixpoint eval (ctx : env) (e : expr) {struct e} : res value :=
   | EIndex a i =>
       match eval ctx a with
       | Ok va => match eval ctx i with Ok vi => index_eval va vi | Exc e => Exc e end
+      | Exc e => Exc e
+      end
+  | ESlice a lo hi =>
+      match eval ctx a with
+      | Ok va => match eval ctx lo with
+                 | Ok vl => match eval ctx hi with Ok vh => slice_eval va vl vh | Exc e => Exc e end
+                 | Exc e => Exc e end
       | Exc e => Exc e
       end
   | EAttr a name =>
